@@ -730,6 +730,62 @@ fn gen(rng: &mut Rng) -> Scen {
     }
 }
 
+
+/// Directed: a burst of immediately failing requests (peer not connected, `Reject`) issued before
+/// the user polls the handle at all: more outcomes than the event channel holds (4096). Every
+/// request id handed out must still get its `RequestFailed` once the user drains the handle.
+async fn burst_unpolled(seed: u64, exec: &ChaosExecutor, api_fallback: bool) -> Result<(usize, usize, usize), String> {
+    let cfg = NodeCfg::new(seed);
+    let (rr_cfg, mut handle) = RrBuilder::new(ProtocolName::from(PROTO)).with_max_size(1024).with_timeout(Duration::from_secs(5)).build();
+    let node = Node::spawn(cfg.builder(exec).with_request_response_protocol(rr_cfg))?;
+    let mut rng = Rng::new(seed ^ 0xB0057);
+    let n = 4700usize;
+    let mut ids: std::collections::HashSet<usize> = Default::default();
+    let mut reused = 0usize;
+    for _ in 0..n {
+        let mut sk = [0u8; 32];
+        rng.fill(&mut sk);
+        let peer = litep2p::crypto::ed25519::Keypair::from(litep2p::crypto::ed25519::SecretKey::try_from_bytes(&mut sk).expect("key")).public().to_peer_id();
+        let r = if api_fallback {
+            handle.send_request_with_fallback(peer, vec![1, 2, 3], (ProtocolName::from("/verif/rr/0"), vec![1]), DialOptions::Reject).await
+        } else {
+            handle.send_request(peer, vec![1, 2, 3], DialOptions::Reject).await
+        };
+        match r {
+            Ok(id) => {
+                if !ids.insert(rid_num(&id)) {
+                    reused += 1;
+                }
+            }
+            Err(e) => return Err(format!("send_request: {e:?}")),
+        }
+    }
+    // now drain
+    let mut outcomes: HashMap<usize, usize> = HashMap::new();
+    let mut idle = 0;
+    while idle < 40 && outcomes.len() < ids.len() {
+        match tokio::time::timeout(Duration::from_millis(100), handle.next()).await {
+            Ok(Some(RequestResponseEvent::RequestFailed { request_id, .. })) | Ok(Some(RequestResponseEvent::ResponseReceived { request_id, .. })) => {
+                *outcomes.entry(rid_num(&request_id)).or_insert(0) += 1;
+                idle = 0;
+            }
+            Ok(Some(_)) => idle = 0,
+            Ok(None) => break,
+            Err(_) => idle += 1,
+        }
+    }
+    // a little longer for duplicates
+    while let Ok(Some(ev)) = tokio::time::timeout(Duration::from_millis(200), handle.next()).await {
+        if let RequestResponseEvent::RequestFailed { request_id, .. } = ev {
+            *outcomes.entry(rid_num(&request_id)).or_insert(0) += 1;
+        }
+    }
+    drop(node);
+    let missing = ids.iter().filter(|i| !outcomes.contains_key(i)).count();
+    let dup = outcomes.values().filter(|c| **c > 1).count();
+    Ok((ids.len(), missing, dup + reused))
+}
+
 pub fn run(ctx: &Ctx) -> Report {
     let mut rep = Report::new(
         "C13",
@@ -798,6 +854,40 @@ pub fn run(ctx: &Ctx) -> Report {
         }
         out
     });
+    // directed burst with an unpolled handle (one per shard, alternating the entry point)
+    if ctx.replay.is_none() || ctx.replay.as_ref().map(|p| std::fs::read_to_string(p).unwrap_or_default().contains("burst-unpolled")).unwrap_or(false) {
+        let fallback = ctx.shard % 2 == 1;
+        let seed = ctx.rng("c13-burst").u64();
+        let r = rt.block_on(async {
+            let exec = ChaosExecutor::new(tokio::runtime::Handle::current(), ctx.seed, 0.0);
+            burst_unpolled(seed, &exec, fallback).await
+        });
+        rep.case(&("burst-unpolled", seed, fallback), true);
+        match r {
+            Ok((issued, missing, dup)) => {
+                rep.hit("burst_unpolled_runs");
+                rep.count("burst_unpolled_requests", issued as u64);
+                let replay = json!({"family": "burst-unpolled", "seed": seed, "fallback_api": fallback});
+                if missing > 0 {
+                    rep.violation(
+                        format!("C13/no-terminal-event/burst-of-immediately-failing-requests-with-unpolled-handle/{}", if fallback { "send_request_with_fallback" } else { "send_request" }),
+                        format!("{issued} requests (Reject, peer not connected) issued before the handle was polled; {missing} never got an outcome after draining"),
+                        replay.clone(),
+                    );
+                }
+                if dup > 0 {
+                    rep.violation("C13/more-than-one-terminal-event/burst-unpolled".to_string(), format!("{dup} request ids with more than one outcome or reused"), replay);
+                }
+                if missing == 0 && dup == 0 {
+                    rep.hit("burst_unpolled_all_answered_once");
+                }
+            }
+            Err(e) => rep.inconclusive(format!("burst scenario: {e}")),
+        }
+        if ctx.replay.is_some() {
+            return rep;
+        }
+    }
     for (i, (s, o)) in results.iter().enumerate() {
         let nontrivial = s.reqs.len() >= 2 || s.reqs.iter().any(|r| r.cancel_after_ms.is_some() || r.action == Action::Kill);
         rep.case(&format!("{:?}", s), nontrivial);
@@ -813,6 +903,7 @@ pub fn run(ctx: &Ctx) -> Report {
         rep.interleavings.insert(crate::common::fnv(&(format!("{:?}", s.target), order.iter().map(|x| x.1).collect::<Vec<_>>())));
         check(&mut rep, s, o);
     }
+    rep.floor("burst_unpolled_all_answered_once", 4);
     rep.floor("scenarios_run", 40);
     rep.floor("requests_with_exactly_one_terminal", 80);
     rep.floor("responses_payload_verified", 30);
